@@ -430,6 +430,23 @@ struct Io {
     }
 };
 
+// dump only (golden-file generation at the pinned revision, where some readers do not compile)
+template <class Tr>
+struct Dmp {
+    using F = covfie::field<typename Tr::B>;
+    static void dump(const void *obj, std::ostream &os)
+    {
+        Sut s;
+        static_cast<const F *>(obj)->dump(os);
+    }
+    static void reg()
+    {
+        sim::SlotOps &o = sim::ops_of(Tr::index);
+        o.has_dmp = true;
+        o.dump = &dump;
+    }
+};
+
 template <class TrD, class TrS>
 struct Conv {
     using FD = covfie::field<typename TrD::B>;
